@@ -68,7 +68,8 @@ structure E2EDom (K V P H M Pat : Type) where
   depends on a hash iteration order, c9) -/
   orderedBaseline : Bool := true
   /-- decidable per-program condition of the anchored-traversal theorem, if the domain has one -/
-  programOK : Option (Automaton K P → List Pat → Bool) := none
+  /-- 0 = fails, 1 = holds, 2 = not applicable (outside the theorem's domain) -/
+  programOK : Option (Automaton K P → List Pat → List (Option (List (Constraint K P))) → Nat) := none
   /-- hosts to enumerate exhaustively when the replay hits a model guard (search for a
   concrete failing input on the dumped automaton) -/
   windows : List Pat → List H := fun _ => []
@@ -285,7 +286,7 @@ def handleE2E {K V P H M Pat} [DecidableEq K] [DecidableEq V] [DecidableEq P]
     (if nOcc > 0 then ["occ"] else []) ++ (if guardHit then ["outside-tbuild-guard"] else []) ++
     (match dom.programOK with
      | none => []
-     | some f => if f A pats then ["programOK"] else ["programOK-FAILS"]) ++
+     | some f => match f A pats cvs with | 1 => ["programOK"] | 0 => ["programOK-FAILS"] | _ => ["programOK-na"]) ++
     (if nMatches > 0 || nMerges > 0 || nFuse > 0 then ["nt"] else []) }
   pure out.render
 
@@ -332,7 +333,7 @@ def strE2E : E2EDom Nat Nat CharPred (List Nat) StrPos (List CharVar) :=
     pKey := pNat, pCons := pSCons, pPat := pList pCharVar, pHost := pList pNat, pMap := pStrPos,
     sMap := sStrPos, convert := fun p => some (strConstraints p), consEq := fun a b => a == b,
     extraKeys := fun _ => [], judge := some (judgeExpected sStrPos strExpected),
-    windows := strWindows, sHost := sNats, programOK := some strProgramOK }
+    windows := strWindows, sHost := sNats, programOK := some fun a ps _ => if strProgramOK a ps then 1 else 0 }
 
 end Drv
 
@@ -357,7 +358,7 @@ def matE2E : E2EDom MKey MVal CharPred MatHost MatPos MatPattern :=
     pKey := pMKey, pCons := pMCons, pPat := pList (pList pMatCell), pHost := pList (pList pNat),
     pMap := pMatPos, sMap := sMatPos, convert := fun p => some (matConstraints p),
     consEq := fun a b => a == b, extraKeys := fun _ => [], judge := some (judgeExpected sMatPos matExpected),
-    programOK := some matProgramOK }
+    programOK := some fun a ps _ => if matProgramOK a ps then 1 else 0 }
 
 structure TPat where
   cons : List TCons
